@@ -41,9 +41,55 @@ Pop(a) == [a EXCEPT !.st = SubSeq(@, 1, Len(@) - 1)]
 -----------------------------------------------------------------------------
 (* Parser: Shift a completed token into the stack *)
 
+-----------------------------------------------------------------------------
+(* Inline images (8.9.7), content mode only.  "BI" opens a frame "bi" that collects key/value    *)
+(* pairs like a dictionary; "ID" must be followed by exactly one white-space byte, then come      *)
+(* InlineInfo(d).len bytes of image data (unfiltered images: height x ceil(width x components x   *)
+(* bits / 8)), optional white-space and "EI".  The whole image becomes one top-level item         *)
+(*   [it |-> "img", d |-> entries, rs, re |-> first/last data position, s |-> position of BI].    *)
+(* Keys and colour-space names may be abbreviated as Tables 93 and 94 allow.                      *)
+InKeyW   == <<87>>                   InKeyWidth  == <<87, 105, 100, 116, 104>>
+InKeyH   == <<72>>                   InKeyHeight == <<72, 101, 105, 103, 104, 116>>
+InKeyBPC == <<66, 80, 67>>           InKeyBits   == <<66, 105, 116, 115, 80, 101, 114, 67, 111, 109, 112, 111, 110, 101, 110, 116>>
+InKeyCS  == <<67, 83>>               InKeyColorSpace == <<67, 111, 108, 111, 114, 83, 112, 97, 99, 101>>
+InKeyF   == <<70>>                   InKeyFilter == <<70, 105, 108, 116, 101, 114>>
+InKeyIM  == <<73, 77>>               InKeyImageMask == <<73, 109, 97, 103, 101, 77, 97, 115, 107>>
+CsG      == <<71>>                   CsDeviceGray == <<68, 101, 118, 105, 99, 101, 71, 114, 97, 121>>
+CsRGB    == <<82, 71, 66>>           CsDeviceRGB  == <<68, 101, 118, 105, 99, 101, 82, 71, 66>>
+CsCMYK   == <<67, 77, 89, 75>>       CsDeviceCMYK == <<68, 101, 118, 105, 99, 101, 67, 77, 89, 75>>
+
+InlineMaxDim == 4096                 \* keeps the arithmetic inside TLC's 32-bit integers
+
+\* [ok, len, why]: the number of data bytes of the inline image whose entries are d
+InlineInfo(d) ==
+    LET absent == [k |-> "absent"]
+        get(ab, full) == IF Has(d, ab) /\ Has(d, full) THEN [k |-> "both"]
+                         ELSE IF Has(d, ab) THEN d[ab] ELSE IF Has(d, full) THEN d[full] ELSE absent
+        w == get(InKeyW, InKeyWidth)     h == get(InKeyH, InKeyHeight)
+        bpc == get(InKeyBPC, InKeyBits)  cs == get(InKeyCS, InKeyColorSpace)
+        flt == get(InKeyF, InKeyFilter)  im == get(InKeyIM, InKeyImageMask)
+        mask == im = OBool(TRUE)
+        no(why) == [ok |-> FALSE, len |-> 0, why |-> why]
+        ncomp == IF mask THEN 1
+                 ELSE IF cs.k # "name" THEN 0
+                 ELSE IF cs.v \in {CsG, CsDeviceGray} THEN 1
+                 ELSE IF cs.v \in {CsRGB, CsDeviceRGB} THEN 3
+                 ELSE IF cs.v \in {CsCMYK, CsDeviceCMYK} THEN 4
+                 ELSE 0
+        bits == IF mask /\ bpc = absent THEN 1 ELSE IF IntSmall(bpc) THEN IntVal(bpc) ELSE 0
+    IN IF "both" \in {w.k, h.k, bpc.k, cs.k, flt.k, im.k} THEN no("inline image entry given under both its names")
+       ELSE IF flt # absent THEN no("filtered inline image: data length is not determined by the entries")
+       ELSE IF im # absent /\ im.k # "bool" THEN no("ImageMask is not a boolean")
+       ELSE IF ~(IntSmall(w) /\ IntSmall(h)) THEN no("inline image without integer Width and Height")
+       ELSE IF IntVal(w) > InlineMaxDim \/ IntVal(h) > InlineMaxDim THEN no("inline image larger than the model supports")
+       ELSE IF mask /\ (cs # absent \/ bits # 1) THEN no("image mask with a colour space or more than one bit")
+       ELSE IF ncomp = 0 THEN no("inline image colour space is not DeviceGray/RGB/CMYK (G, RGB, CMYK)")
+       ELSE IF bits \notin {1, 2, 4, 8, 16} THEN no("inline image BitsPerComponent is not 1, 2, 4, 8 or 16")
+       ELSE [ok |-> TRUE, len |-> IntVal(h) * ((IntVal(w) * ncomp * bits + 7) \div 8), why |-> ""]
+
 PushVal(a, v, s) ==
     LET fr == Top(a) IN
-    IF fr.fk = "dict" THEN
+    IF fr.fk = "dict" \/ fr.fk = "bi" THEN
         IF ~fr.hk THEN
             IF v.k # "name" THEN Fail(a, "dictionary key is not a name")
             ELSE IF v.v \in DOMAIN fr.d THEN Fail(a, "duplicate dictionary key")
@@ -64,7 +110,18 @@ ShiftKeyword(a, tok) ==
     LET fr == Top(a) IN
     IF a.cm THEN
         \* content stream: every keyword is an operator (BI/ID/EI handled by the lexer modes)
-        IF fr.fk = "top" THEN TopItem(a, [it |-> "kw", v |-> tok.v, s |-> tok.s])
+        IF fr.fk = "top" THEN
+            IF tok.v = KwBI THEN Push(a, Frame("bi", tok.s, 0, 0))               \* inline image begins (num: 0 before ID, 1 after the data)
+            ELSE TopItem(a, [it |-> "kw", v |-> tok.v, s |-> tok.s])
+        ELSE IF fr.fk = "bi" THEN
+            IF tok.v = KwID /\ fr.num = 0 THEN
+                IF fr.hk THEN Fail(a, "inline image key without value")
+                ELSE LET info == InlineInfo(fr.d) IN
+                     IF info.ok THEN SetTop([a EXCEPT !.m = "idws", !.n = info.len], [fr EXCEPT !.num = 1])
+                     ELSE Fail(a, info.why)
+            ELSE IF tok.v = KwEI /\ fr.num = 1 THEN
+                TopItem(Pop(a), [it |-> "img", d |-> fr.d, rs |-> a.rs, re |-> a.re, s |-> fr.off])
+            ELSE Fail(a, "operator inside inline image")
         ELSE Fail(a, "operator inside array or dictionary")
     ELSE IF tok.v = KwEndobj THEN
         IF fr.fk = "obj" /\ Len(fr.items) = 1 /\ ~a.xe /\ Len(a.st) = 2
@@ -215,6 +272,10 @@ Dispatch(a, b) ==      \* after a token was shifted on a terminating byte b
     ELSE IF a.m = "seol" THEN
         (IF b = 13 THEN [a EXCEPT !.m = "seol2"] ELSE IF b = 10 THEN BeginRaw(a)
          ELSE Fail(a, "stream keyword not followed by CRLF or LF"))
+    ELSE IF a.m = "idws" THEN                                   \* the byte that ends the keyword ID (8.9.7: one white-space)
+        (IF ~IsWS(b) THEN Fail(a, "ID not followed by a white-space byte")
+         ELSE IF a.n = 0 THEN [a EXCEPT !.m = "iend", !.rs = a.p + 1, !.re = a.p]
+         ELSE [a EXCEPT !.m = "iraw", !.rs = a.p + 1])
     ELSE StartTok(a, b)
 
 Step0(a, b) ==
@@ -259,6 +320,12 @@ Step0(a, b) ==
         ELSE [a EXCEPT !.n = k]
     ELSE IF m = "kwend" THEN
         IF IsRegular(b) THEN Fail(a, "endstream runs into regular characters") ELSE StartTok([a EXCEPT !.m = "ws"], b)
+    ELSE IF m = "iraw" THEN                                     \* inline image data, a.n bytes left
+        IF a.n = 1 THEN [a EXCEPT !.m = "iend", !.n = 0, !.re = a.p] ELSE [a EXCEPT !.n = @ - 1]
+    ELSE IF m = "iend" THEN                                     \* after the data: white-space, then the keyword EI
+        IF IsWS(b) THEN a
+        ELSE IF b = 69 THEN [a EXCEPT !.m = "kw", !.t = <<b>>, !.s = a.p]
+        ELSE Fail(a, "EI expected after inline image data")
     ELSE Fail(a, "unknown mode")
 
 Step(a, b) == IF a.err # "" THEN a ELSE [Step0(a, b) EXCEPT !.p = a.p + 1]
